@@ -55,6 +55,13 @@ DB_ASSUME = [
     "GraphFiles::id_from_canonical (hash map) is a trusted stub; HashMap<FileId,Id> obeys the vstd key model",
     "D8 (known limits, preconditions of Writer::write_build that callers cannot discharge): #outputs < 32768, #discovered deps <= 65535, names < 32768 bytes, < 2^24 distinct files ever logged",
 ]
+PROPS["C07"] = {
+    "units": ["db"],
+    "probes": {"db": ["db::Reader::read_file", "db::Reader::read_record", "db::RecordWriter::finish"]},
+    "level": "proof",
+    "assumptions": DB_ASSUME + ["Reader::read (constructs the BufReader) and db::open (OpenOptions, metadata().len(), set_len truncation, re-writing the header of an empty log) are not under contract yet: the truncation to the returned valid length is the part of the C07 fix that is only tested (findings/D6/demo.sh), not proved",
+                    "what the kernel persists of one write is modelled as 'a prefix of the buffer' (write_all's Err/crash clause); fsync / ordering across files not modelled"],
+}
 PROPS["C08"] = {
     "units": ["db"],
     "probes": {"db": ["db::Reader::read_build", "db::Writer::write_build", "db::Writer::ensure_id"]},
@@ -67,6 +74,11 @@ NOT_APPLICABLE = {
 }
 
 LEVEL_TEXT = {
+    "C07": {
+        "text": "Unbounded proof (Verus) on the real (fixed) db.rs: for every byte stream that is a complete-records-plus-torn-tail stream (wf_stream: spec-level parser of the record grammar, ids defined before use), Reader::read_file returns Ok -- never an error, never a panic (all index obligations discharged) -- with exactly the complete records applied (read_record: a torn record is an EOF error that leaves ids, graph and hashes untouched) and returns the offset of the end of the last complete record (valid_len), to which db::open truncates before appending; files shorter than the header load as empty. Each record reaches the file in one write_all (RecordWriter::finish).",
+        "note": "Two genuine defects found with this contract (torn tail => permanent load failure; 1-byte tail => misaligned appends) and fixed in /repo (a52cbb8). Trusted: io model (read_exact fails only with EOF), stream_position, utf-8 model. db::open/Reader::read glue not under contract.",
+        "design_ref": "DESIGN.md §6 C07",
+    },
     "C08": {
         "text": "Unbounded proof (Verus) on the real text of db.rs: Writer::write_build appends, in one write per record, first a path record for every file not yet logged (ids in order) and then exactly enc_build(ids_of(outs), ids_of(discovered deps), hash), where each id maps back to that file (idmap_inv); Reader::read_build decodes exactly those fields and applies the record to build b iff the record names at least one output and every named output currently has b as its producer (target_of), in which case b's discovered inputs and hash are replaced (latest record wins) and nothing else changes; otherwise graph and hashes are unchanged. u16/u24/u64 codecs proved inverse by bit-vector lemmas.",
         "note": "Trusted: io model, utf-8 model, le-bytes wrappers, id_from_canonical stub. Field-width limits are stated preconditions (D8). Genuine defect D13 found by this contract and fixed in /repo (record applied although one named output had no producer).",
